@@ -188,8 +188,8 @@ static void part_slow(bool deep) {
 //              higher orders): an impulse of charge and a particle start on the same lattice point; after every apply()+applyTo()
 //              the centroid of the charge (which stays in its row) must coincide with the particle
 static void part_chain(const std::vector<unsigned>& ns, unsigned steps) {
-    static const char* CN[] = {"RFKickMap.linear", "RFKickMap.sin", "DynamicRF.linear.mod", "DynamicRF.sin.mod", "DynamicRF.linear.noise", "DynamicRF.sin.noise", "DriftMap", "DriftMap.alpha12"};
-    for (unsigned n : ns) for (int kind = 0; kind < 8; kind++) for (unsigned it = 2; it <= 4; it++) for (int sh = 0; sh < 2; sh++) {
+    static const char* CN[] = {"RFKickMap.linear", "RFKickMap.sin", "DynamicRF.linear.mod", "DynamicRF.sin.mod", "DynamicRF.linear.noise", "DynamicRF.sin.noise", "DriftMap", "DriftMap.alpha12", "DriftMap.alpha2"};
+    for (unsigned n : ns) for (int kind = 0; kind < 9; kind++) for (unsigned it = 2; it <= 4; it++) for (int sh = 0; sh < 2; sh++) {
         std::string kase = mcx::Desc()("part", "chain")("map", CN[kind])("n", n)("it", it)("shift", sh).str();
         if (!R.mine(kase)) continue;
         if (R.out_of_time()) { R.not_completed = kase; return; }
@@ -208,7 +208,8 @@ static void part_chain(const std::vector<unsigned>& ns, unsigned steps) {
         case 4: m = std::make_shared<DynamicRFKickMap>(in, out, n, n, angle, revpart, frf, 0.003f, 0.05f, 0.f, 0.0, steps, itt, false, nullptr); break;
         case 5: m = std::make_shared<DynamicRFKickMap>(in, out, n, n, revpart, VRF, frf, V0, 0.003f, 0.05f, 0.02f, 0.07, steps, itt, false, nullptr); break;
         case 6: m = std::make_shared<DriftMap>(in, out, std::vector<float>{angle, 0.f, 0.f}, 1.3e9f, itt, false, nullptr); break;
-        default: m = std::make_shared<DriftMap>(in, out, std::vector<float>{angle, 0.4f * angle, -0.3f * angle}, 1.3e9f, itt, false, nullptr); break;
+        case 7: m = std::make_shared<DriftMap>(in, out, std::vector<float>{angle, 0.4f * angle, -0.3f * angle}, 1.3e9f, itt, false, nullptr); break;
+        default: m = std::make_shared<DriftMap>(in, out, std::vector<float>{angle, 0.f, -0.3f * angle}, 1.3e9f, itt, false, nullptr); break;   // third order without a second one
         }
         const std::string key = std::string("C15/chain/") + CN[kind];
         double worst = 0; unsigned compared = 0;
@@ -245,7 +246,7 @@ static void part_chain(const std::vector<unsigned>& ns, unsigned steps) {
         // (deterministic kicks: at least two steps per row; with random noise the blob may be thrown out early: at least one step per row on average)
         if (compared < (n - 4) * ((kind == 4 || kind == 5) ? 1 : 2)) R.violate(key + "/charge-lost-before-comparison", kase, "only " + std::to_string(compared) + " (row, step) comparisons were possible");
     }
-    R.bound_done("chain: n x {static RF linear/sin, dynamic RF linear/sin with modulation / with noise, drift, drift with alpha1,2} x it{2,3,4} x 2 grid shifts x every interior row x " + std::to_string(steps) + " consecutive steps");
+    R.bound_done("chain: n x {static RF linear/sin, dynamic RF linear/sin with modulation / with noise, drift, drift with alpha1,2, drift with alpha2 only} x it{2,3,4} x 2 grid shifts x every interior row x " + std::to_string(steps) + " consecutive steps");
 }
 
 int main(int argc, char** argv) {
